@@ -7,7 +7,7 @@ Theorems about `Model/Resample.lean` (the array and calibration arithmetic of
 examples live here.
 -/
 namespace QuantemModel.Props.C06
-open QuantemModel QuantemModel.Nd QuantemModel.Dft QuantemModel.Resample
+open QuantemModel QuantemModel.Nd QuantemModel.Dft QuantemModel.Resample Complex
 
 /-! ### binning -/
 
@@ -227,27 +227,25 @@ theorem resample_identity (x : List (Cx ℝ)) (hn : x.length ≠ 0) : resample1 
 
 /-- **up-sampling then down-sampling back returns the original data**, for every complex
 signal and every `m ≥ n ≥ 1`.  (For complex data the code never takes a real part, so no
-Nyquist exclusion is needed; see `resample_roundtrip_real_partial` for what is missing for
-real input.) -/
+Nyquist exclusion is needed; `resample_roundtrip_real` is the statement for real input.) -/
 theorem resample_roundtrip (x : List (Cx ℝ)) (m : ℕ) (hn : 1 ≤ x.length) (hnm : x.length ≤ m) :
     resample1 x.length (resample1 m x) = x :=
   resample1_up_down x m hn hnm
 
-/- Full statement for real input (not proved): if every `x[i]` is real and, for even `n`, the
-Nyquist coefficient `X̂[n/2]` vanishes, then `resample1 m x` is real for `m ≥ n`, hence taking
-the real part (as `fourier_resample` does for real arrays) changes nothing and
-    realPart (resample1 n (realPart (resample1 m x))) = x.
-What is missing is the Hermitian-symmetry argument (the index map pairs `k'` with `m - k'`
-exactly when it pairs `k` with `n - k`, except at the Nyquist bin).  The implementation side
-of this clause is measured on every run (float stream, `roundtrip` predicate on Nyquist-free
-real and complex signals). -/
-/-- proved part of the real-input round trip: whenever the up-sampled signal happens to be
-real (so that `.real` is a no-op), the round trip is exact. -/
-theorem resample_roundtrip_real_partial (x : List (Cx ℝ)) (m : ℕ) (hn : 1 ≤ x.length)
-    (hnm : x.length ≤ m)
-    (hreal : (resample1 m x).map (fun z => Cx.ofReal z.re) = resample1 m x) :
-    resample1 x.length ((resample1 m x).map (fun z => Cx.ofReal z.re)) = x := by
-  rw [hreal]; exact resample1_up_down x m hn hnm
+/-- **real input stays real**: for a real signal up-sampled to `m ≥ n` — without
+Nyquist-frequency content when `n` is even and `m > n` — every output sample of the complex
+operator is real, so the `.real` that `fourier_resample` applies to real arrays is a no-op. -/
+theorem resample_real_output (x : List (Cx ℝ)) (m : ℕ) (hn : 1 ≤ x.length) (hnm : x.length ≤ m)
+    (hx : IsRealList x) (hny : x.length < m → NoNyquist x) : IsRealList (resample1 m x) :=
+  resample1_real x m hn hnm hx hny
+
+/-- **up-sampling followed by down-sampling back returns the original data, for any real
+signal without Nyquist-frequency content** — the operator exactly as the code runs it on real
+arrays (`takeReal` = `.real` after each inverse FFT), for every `m ≥ n ≥ 1`, odd or even. -/
+theorem resample_roundtrip_real (x : List (Cx ℝ)) (m : ℕ) (hn : 1 ≤ x.length) (hnm : x.length ≤ m)
+    (hx : IsRealList x) (hny : x.length < m → NoNyquist x) :
+    takeReal (resample1 x.length (takeReal (resample1 m x))) = x :=
+  resample1_up_down_real x m hn hnm hx hny
 
 /-! ### non-vacuity -/
 
@@ -260,5 +258,22 @@ example : InBox (binShape [7, 5] [2, 3]) [2, 0] ∧ InBox [2, 3] [1, 2] ∧ binS
   simp [binShape, InBox, binSrc]
 example : padWidths 8 5 = (1, 2) ∧ padWidths 3 5 = (0, 0) := by decide
 example : (binNd (⟨[5], [1, 2, 3, 4, 5]⟩ : Arr Int) [2]).data = [3, 7] := by decide
+
+-- hypotheses of the real round trip are satisfiable: an odd-length real signal, and an
+-- even-length real signal whose Nyquist coefficient vanishes
+example : IsRealList [(⟨1, 0⟩ : Cx ℝ), ⟨2, 0⟩, ⟨5, 0⟩] ∧ NoNyquist [(⟨1, 0⟩ : Cx ℝ), ⟨2, 0⟩, ⟨5, 0⟩] := by
+  constructor
+  · intro z hz; simp at hz; rcases hz with rfl | rfl | rfl <;> rfl
+  · intro h; simp at h
+
+example : NoNyquist [(⟨3, 0⟩ : Cx ℝ), ⟨3, 0⟩] := by
+  intro _
+  show toC ((dft [(⟨3, 0⟩ : Cx ℝ), ⟨3, 0⟩]).getD 1 Cx.zero) = 0
+  rw [toC_dft_getD _ 1 (by simp)]
+  have hz : zeta 2 = -1 := by
+    unfold zeta
+    rw [show (2 : ℂ) * (Real.pi : ℂ) * I / ((2 : ℕ) : ℂ) = (Real.pi : ℂ) * I by push_cast; ring]
+    exact Complex.exp_pi_mul_I
+  simp [Finset.sum_range_succ, hz, toC]
 
 end QuantemModel.Props.C06
